@@ -443,4 +443,3 @@ func c16Jobs(tier string) []*SeqJob {
 	}
 	return []*SeqJob{one, reuse, ub}
 }
-
